@@ -16,7 +16,7 @@ var ErrSim = errors.New("simulated entropy failure")
 
 // Plan of the simulated entropy source.
 var (
-	Mode     int  // 0: seeded bytes (environment PRNG), 1: all 0x00, 2: all 0xFF
+	Mode     int  // 0: seeded bytes (environment PRNG), 1: all 0x00, 2: all 0xFF, 3: 0x01 0x02 0x03 ...
 	MaxChunk int  // >0: short reads of at most MaxChunk bytes
 	FailAt   int  // >0: the FailAt-th Read call fails (1-based)
 	FailOn   bool // every call from FailAt on fails
@@ -49,6 +49,8 @@ func (simReader) Read(p []byte) (int, error) {
 			p[i] = 0
 		case 2:
 			p[i] = 0xFF
+		case 3:
+			p[i] = byte(len(Trace) + i + 1)
 		default:
 			p[i] = byte(core.EnvU64())
 		}
